@@ -12,6 +12,12 @@
  *    perm N len v0 v1 ...
  *    call OP args...              see dispatch()
  *    dump N | dumpperm N | free N
+ *    consts                       print the build-dependent constants of the library under test (one line)
+ *    consts K=V ...               check them against the script's values (Tier B scripts carry the constants the
+ *                                 model side was run with): prints consts-mismatch lines for the ones that differ
+ * Tier B (tools/props/tierb.py): "call tb_<op> args" runs the same library routine as "call <op> args" (the
+ * model side runs the algorithm-faithful model instead of the specification); tb_make_table and tb_djb also
+ * print the observable intermediates (table / index contents, the compiled op list).
  * dump prints "mat N r c h0 h1 ...": for an owned matrix the RAW words of each row (so a non-zero
  * padding bit shows up as a value >= 2^c); for a window the words masked with high_bitmask.
  */
@@ -166,11 +172,89 @@ static void setret(const char *retname, mzd_t *dst_given, mzd_t *result) {
   (void)dst_given;
 }
 
+
+/* ---- build-dependent constants of the library under test (macros of the headers the harness is compiled with) ---- */
+#include <m4ri/strassen.h>
+#include <m4ri/ple.h>
+#include <m4ri/echelonform.h>
+#define STR_(x) #x
+#define STR(x) STR_(x)
+typedef struct { const char *name; long value; } const_t;
+static int get_consts(const_t *c) {
+  int n = 0;
+  c[n].name = "MUL_BLOCKSIZE"; c[n++].value = (long)(__M4RI_MUL_BLOCKSIZE);
+  c[n].name = "STRASSEN_MUL_CUTOFF"; c[n++].value = (long)(__M4RI_STRASSEN_MUL_CUTOFF);
+  c[n].name = "PLE_CUTOFF"; c[n++].value = (long)(__M4RI_PLE_CUTOFF);
+  c[n].name = "L1"; c[n++].value = (long)(__M4RI_CPU_L1_CACHE);
+  c[n].name = "L2"; c[n++].value = (long)(__M4RI_CPU_L2_CACHE);
+  c[n].name = "L3"; c[n++].value = (long)(__M4RI_CPU_L3_CACHE);
+  c[n].name = "SSE2"; c[n++].value = (long)(__M4RI_HAVE_SSE2);
+  c[n].name = "OPENMP"; c[n++].value = (long)(__M4RI_HAVE_OPENMP);
+  c[n].name = "MAXKAY"; c[n++].value = (long)(__M4RI_MAXKAY);
+  /* the crossover density of mzd_echelonize in 1/10000 */
+  c[n].name = "CROSSOVER_E4"; c[n++].value = (long)(__M4RI_ECHELONFORM_CROSSOVER_DENSITY * 10000.0 + 0.5);
+  return n;
+}
+static void do_consts(int nt, char **tok) {
+  const_t c[16];
+  int n = get_consts(c);
+  if (nt == 1) {
+    printf("consts");
+    for (int i = 0; i < n; i++) printf(" %s=%ld", c[i].name, c[i].value);
+    printf("\n");
+    return;
+  }
+  for (int t = 1; t < nt; t++) {
+    char *eq = strchr(tok[t], '=');
+    if (!eq) fail("consts", tok[t]);
+    int found = 0;
+    for (int i = 0; i < n; i++)
+      if (strlen(c[i].name) == (size_t)(eq - tok[t]) && !strncmp(c[i].name, tok[t], eq - tok[t])) {
+        found = 1;
+        if (strtol(eq + 1, NULL, 10) != c[i].value) printf("consts-mismatch %s library=%ld script=%s\n", c[i].name, c[i].value, eq + 1);
+      }
+    if (!found) printf("consts-mismatch %s unknown\n", tok[t]);
+  }
+}
+
 #define OP(s) (!strcmp(op, s))
 #define NEED(n) do { if (na < (n)) fail("too few args", op); } while (0)
 
 static void dispatch(int na, char **a) {
   const char *op = a[0];
+  /* ---------------- Tier B: observable intermediates ---------------- */
+  if (OP("tb_make_table")) { /* tb_make_table M r c k T l0 .. l(2^k-1): T (2^k x M->ncols, any content) and L as given */
+    NEED(6);
+    mzd_t *A = M(a[1]);
+    int k    = I(a[4]);
+    mzd_t *T = M(a[5]);
+    int tk   = 1 << k;
+    if (na != 6 + tk) fail("tb_make_table L length", a[5]);
+    if (T->nrows < tk || T->ncols != A->ncols) fail("tb_make_table T shape", a[5]);
+    rci_t *L = (rci_t *)malloc(sizeof(rci_t) * tk);
+    for (int i = 0; i < tk; i++) L[i] = I(a[6 + i]);
+    mzd_make_table(A, I(a[2]), I(a[3]), k, T, L);
+    printf("ret L");
+    for (int i = 0; i < tk; i++) printf(" %d", L[i]);
+    printf("\n");
+    free(L);
+    return;
+  }
+  if (OP("tb_djb")) { /* tb_djb RET A V : as djb, and the compiled program z->(target, source, srctyp)[0..length) */
+    NEED(4);
+    mzd_t *Ac = mzd_copy(NULL, M(a[2]));
+    djb_t *z  = djb_compile(Ac);
+    printf("djbops %d", (int)z->length);
+    for (rci_t i = 0; i < z->length; i++) printf(" %d,%d,%d", z->target[i], z->source[i], z->srctyp[i] == source_source ? 1 : 0);
+    printf("\n");
+    mzd_t *W = mzd_init(M(a[2])->nrows, M(a[3])->ncols);
+    djb_apply_mzd(z, W, M(a[3]));
+    djb_free(z);
+    mzd_free(Ac);
+    setret(a[1], NULL, W);
+    return;
+  }
+  if (!strncmp(op, "tb_", 3)) op += 3; /* every other tb_<op> is <op> on this side */
   /* ---------------- C01 multiplication ---------------- */
   if (OP("mul_naive")) { NEED(5); setret(a[1], M(a[2]), mzd_mul_naive(M(a[2]), M(a[3]), M(a[4]))); }
   else if (OP("addmul_naive")) { NEED(5); setret(a[1], M(a[2]), mzd_addmul_naive(M(a[2]), M(a[3]), M(a[4]))); }
@@ -336,6 +420,8 @@ static void run_case(char **lines, int from, int to) {
 #else
       dispatch(nt - 1, tok + 1);
 #endif
+    } else if (!strcmp(tok[0], "consts")) {
+      do_consts(nt, tok);
     } else if (!strcmp(tok[0], "dump")) {
       obj_t *o = lookup(tok[1]);
       if (!o) fail("dump unknown", tok[1]);
